@@ -166,16 +166,18 @@ def make_model_and_data(model_name, variant=0):
 
 
 def algo_kwargs(algo, seed):
-    # adaptation window of 3 iterations so that the samplers' adaptive std is exercised within the 6 iterations
+    # adaptation window of 4 iterations so that the samplers' adaptive std is exercised within the 6 iterations;
+    # fit: 3 memory-less iterations then 3 with memory (both branches of the maximisation step)
     if algo in FIT_SAMPLERS:
         return "mcmc_saem", dict(seed=seed, n_iter=N_ITER, progress_bar=False, sampler_pop=FIT_SAMPLERS[algo],
-                                 sampler_pop_params={"acceptation_history_length": 3},
-                                 sampler_ind_params={"acceptation_history_length": 3})
+                                 n_burn_in_iter_frac=0.5,
+                                 sampler_pop_params={"acceptation_history_length": 4},
+                                 sampler_ind_params={"acceptation_history_length": 4})
     if algo == "pers_scipy":
         return "scipy_minimize", dict(seed=seed, progress_bar=False)
     if algo in PERSONALIZE:
         return PERSONALIZE[algo], dict(seed=seed, n_iter=N_ITER, progress_bar=False,
-                                       sampler_ind_params={"acceptation_history_length": 3})
+                                       sampler_ind_params={"acceptation_history_length": 4})
     if algo == "simulate":
         return "simulate", dict(seed=seed, features=["Y0", "Y1", "Y2"], visit_parameters=dict(VISITS))
     raise ValueError(algo)
